@@ -14,6 +14,7 @@ import (
 	"encoding/hex"
 	"fmt"
 	"io"
+	"sort"
 	"sync"
 	"sync/atomic"
 	"testing"
@@ -21,6 +22,7 @@ import (
 	"time"
 
 	remoteexecution "github.com/bazelbuild/remote-apis/build/bazel/remote/execution/v2"
+	"github.com/buildbarn/bb-remote-execution/pkg/builder"
 	"github.com/buildbarn/bb-remote-execution/pkg/filesystem/pool"
 	"github.com/buildbarn/bb-remote-execution/pkg/filesystem/virtual"
 	bazeloutputservicerev2 "github.com/buildbarn/bb-remote-execution/pkg/proto/bazeloutputservice/rev2"
@@ -30,6 +32,7 @@ import (
 	"github.com/buildbarn/bb-storage/pkg/clock"
 	"github.com/buildbarn/bb-storage/pkg/digest"
 	"github.com/buildbarn/bb-storage/pkg/filesystem"
+	"github.com/buildbarn/bb-storage/pkg/filesystem/path"
 	"github.com/buildbarn/bb-storage/pkg/random"
 	"google.golang.org/grpc/codes"
 	"google.golang.org/grpc/status"
@@ -102,6 +105,13 @@ func fname(i int) string { return fmt.Sprintf("f%d", i+1) }
 type world struct {
 	tr    *common.Trace // nil: run without logging (enumeration of inner nodes)
 	alloc string
+	// dir mode: files are created, linked, removed and uploaded through
+	// the real build directory (builder.NewVirtualBuildDirectory over
+	// virtual.NewInMemoryPrepopulatedDirectory, hooks installed as
+	// LocalBuildExecutor does); otherwise the leaf is driven directly.
+	dirMode bool
+	root    virtual.PrepopulatedDirectory
+	bd      builder.BuildDirectory
 
 	mu      sync.Mutex
 	cond    *sync.Cond
@@ -131,8 +141,8 @@ type errorLogger struct{ w *world }
 
 func (l errorLogger) Log(err error) { l.w.errors.Add(1) }
 
-func newWorld(tr *common.Trace, alloc string) *world {
-	w := &world{tr: tr, alloc: alloc, ops: map[int]*opCtl{}, nextID: 1}
+func newWorld(tr *common.Trace, alloc string, dirMode bool) *world {
+	w := &world{tr: tr, alloc: alloc, dirMode: dirMode, ops: map[int]*opCtl{}, nextID: 1}
 	w.cond = sync.NewCond(&w.mu)
 	var ha virtual.StatefulHandleAllocator
 	switch alloc {
@@ -153,6 +163,31 @@ func newWorld(tr *common.Trace, alloc string) *world {
 		ha,
 	)
 	w.cas = &fakeCAS{w: w}
+	if dirMode {
+		// cmd/bb_worker: the root of the virtual build directory,
+		// initially over an empty pool ...
+		defaultAttributesSetter := func(requested virtual.AttributesMask, attributes *virtual.Attributes) {}
+		symlinkFactory := virtual.NewErrorSymlinkFactory(status.Error(codes.PermissionDenied, "Symlink outside build directory"))
+		w.root = virtual.NewInMemoryPrepopulatedDirectory(
+			virtual.NewHandleAllocatingFileAllocator(
+				virtual.NewPoolBackedFileAllocator(pool.EmptyFilePool, errorLogger{w}, defaultAttributesSetter, virtual.NoNamedAttributesFactory),
+				ha,
+			),
+			symlinkFactory,
+			errorLogger{w},
+			ha,
+			sort.Sort,
+			func(string) bool { return false },
+			clock.SystemClock,
+			virtual.CaseSensitiveComponentNormalizer,
+			defaultAttributesSetter,
+			virtual.NoNamedAttributesFactory,
+		)
+		// ... wrapped per action, with the action's file pool
+		// installed (LocalBuildExecutor.Execute -> InstallHooks).
+		w.bd = builder.NewVirtualBuildDirectory(w.root, nil, w.cas, symlinkFactory, nil, ha, defaultAttributesSetter, clock.SystemClock)
+		w.bd.InstallHooks(&instrPool{w: w}, errorLogger{w})
+	}
 	// As LocalBuildExecutor does: one context with a timeout, whose
 	// Done channel bounds the wait for writers of all uploads.
 	w.delayCtx, w.delayCancel = clock.SystemClock.NewContextWithTimeout(context.Background(), uploadDelay)
@@ -396,11 +431,13 @@ type readerCtl struct {
 }
 
 type fileCtl struct {
-	leaf   virtual.LinkableLeaf
-	pf     *poolFile
-	links  int
-	fds    []*fdCtl
-	pinned int // pending path based mutators relying on a link
+	leaf    virtual.LinkableLeaf
+	pf      *poolFile
+	links   int
+	fds     []*fdCtl
+	pinned  int              // pending path based mutators relying on a link
+	names   []path.Component // dir mode: names the file has in the root directory
+	nameSeq int
 }
 
 type opCtl struct {
@@ -515,6 +552,21 @@ func (o *opCtl) run(ev common.Ev) {
 	switch o.op {
 	case "create":
 		w.creating = o.f
+		if w.dirMode {
+			var createAttributes, out virtual.Attributes
+			createAttributes.SetPermissions(virtual.PermissionsRead | virtual.PermissionsWrite)
+			if o.n > 0 {
+				createAttributes.SetSizeBytes(uint64(o.n))
+			}
+			name := fc.newName(o.f)
+			leaf, _, _, s := w.root.VirtualOpenChild(ctx, name, maskOf(o.mask), &createAttributes, nil, 0, &out)
+			ev["st"] = statusName(s)
+			if s == virtual.StatusOK {
+				fc.leaf = leaf.(virtual.LinkableLeaf)
+				fc.names = append(fc.names, name)
+			}
+			return
+		}
 		leaf, err := w.allocator.NewFile(pool.ZeroHoleSource, false, uint64(o.n), maskOf(o.mask))
 		if err != nil {
 			ev["st"] = errName(err)
@@ -534,8 +586,25 @@ func (o *opCtl) run(ev common.Ev) {
 	case "close":
 		fc.leaf.VirtualClose(maskOf(o.mask))
 	case "link":
+		if w.dirMode {
+			var out virtual.Attributes
+			name := fc.newName(o.f)
+			_, s := w.root.VirtualLink(ctx, name, fc.leaf, 0, &out)
+			ev["st"] = statusName(s)
+			if s == virtual.StatusOK {
+				fc.names = append(fc.names, name)
+			}
+			return
+		}
 		ev["st"] = statusName(fc.leaf.Link())
 	case "unlink":
+		if w.dirMode {
+			name := fc.names[len(fc.names)-1]
+			fc.names = fc.names[:len(fc.names)-1]
+			_, s := w.root.VirtualRemove(ctx, name, false, true)
+			ev["st"] = statusName(s)
+			return
+		}
 		fc.leaf.Unlink()
 	case "write":
 		n, s := fc.leaf.VirtualWrite(ctx, o.data, uint64(o.off))
@@ -573,6 +642,15 @@ func (o *opCtl) run(ev common.Ev) {
 		}
 		ev["links"] = int(out.GetLinkCount())
 	case "upload":
+		if w.dirMode && len(fc.names) > 0 {
+			// The call LocalBuildExecutor / OutputHierarchy make.
+			d, err := w.bd.UploadFile(context.WithValue(ctx, opKey{}, o), fc.names[0], digestFunction, w.delayCtx.Done())
+			ev["st"] = errName(err)
+			if err == nil {
+				o.fillDigest(ev, d)
+			}
+			return
+		}
 		// What builder.virtualBuildDirectory.UploadFile does with
 		// the leaf it looked up.
 		p := virtual.ApplyUploadFile{
@@ -641,6 +719,11 @@ func locatorDigest(loc *anypb.Any) (digest.Digest, bool) {
 		return digest.BadDigest, false
 	}
 	return d, true
+}
+
+func (fc *fileCtl) newName(f int) path.Component {
+	fc.nameSeq++
+	return path.MustNewComponent(fmt.Sprintf("f%d_%d", f+1, fc.nameSeq))
 }
 
 func (o *opCtl) fillDigest(ev common.Ev, d digest.Digest) {
@@ -824,7 +907,7 @@ func (w *world) injectReadFault(f int) {
 
 // runTrace runs body inside a fresh bubble and world, followed by the
 // drain that releases every reference the driver holds.
-func runTrace(t *testing.T, tr *common.Trace, trace int, alloc string, nfiles int, body func(w *world)) (events int) {
+func runTrace(t *testing.T, tr *common.Trace, trace int, alloc string, dirMode bool, nfiles int, body func(w *world)) (events int) {
 	defer func() {
 		// A goroutine that is parked for good inside the real code
 		// (reported as "stuck" in the trace) makes the bubble end with
@@ -836,11 +919,15 @@ func runTrace(t *testing.T, tr *common.Trace, trace int, alloc string, nfiles in
 		}
 	}()
 	synctest.Test(t, func(t *testing.T) {
-		w := newWorld(tr, alloc)
+		w := newWorld(tr, alloc, dirMode)
 		for i := 0; i < maxFiles; i++ {
 			w.files[i] = &fileCtl{}
 		}
-		w.emit(0, common.Ev{"ev": "reset", "trace": trace, "alloc": alloc, "nfiles": nfiles})
+		mode := "leaf"
+		if dirMode {
+			mode = "dir"
+		}
+		w.emit(0, common.Ev{"ev": "reset", "trace": trace, "alloc": alloc, "mode": mode, "nfiles": nfiles})
 		body(w)
 		w.drain()
 		events = w.events
